@@ -151,7 +151,7 @@ class ItextGen:
             return rng.choice(cands)
         if other and rng.random() < 0.06:
             return rng.choice(other)  # search / non-search conflict (rejected by pyxform)
-        ln = rng.choice(["yn", "c", "l-1", "a", "opts", "c-1"]) + str(len(self.lists))
+        ln = rng.choice(["yn", "c", "l-1", "a", "opts", "c-1"] + (["it's"] if rng.random() < 0.03 else [])) + str(len(self.lists))
         self.new_list(ln)
         if search:
             self.search_lists.add(ln)
@@ -424,6 +424,9 @@ def extract(survey) -> dict:
     for ln, its in (survey.choices or {}).items():
         opts = []
         for o in its.options:
+            if isinstance(o.extra_data, dict) and "itextId" in o.extra_data:
+                # an extra choices column of that name is written as a second <itextId> child (finding F60)
+                raise Unsupported("choices column named itextId")
             opts.append({"label": txt_json(o.label), "media": media_json(o.media)})
         lists.append({"name": ln, "options": opts})
     root = elem(survey)
